@@ -165,3 +165,68 @@ def must_write(prog, cg):
                 mw[p] = res
                 changed = True
     return mw, acc
+
+
+RMW = ("::fetch_add", "::fetch_sub", "::swap", "::compare_exchange", "::compare_exchange_weak", "::fetch_update")
+
+
+def generation_tokens(prog, cg, acc):
+    """Statics used only as a *generation token*: an atomic counter that is advanced by read-modify-write operations and
+    whose plain loads are used for nothing but an equality test against a value the function already holds (a captured
+    token).  Such a static carries no state from one query to the next that any query can observe: every user takes a
+    fresh token and only asks "is mine still the current one?".  Returns {static path: {"rmw": [fn..], "tests": [fn..]}}."""
+    from sym import Walker, strip, mentions
+    per = {}
+    for p, lst in acc.items():
+        for a in lst:
+            per.setdefault(a["static"], []).append((p, a))
+    out = {}
+    for st, uses in per.items():
+        ok = True
+        rmw_fns, test_fns = set(), set()
+        load_fns = set()
+        for p, a in uses:
+            if a["kind"] == "ref" and not a.get("mutable_ref"):
+                continue            # the receiver reference of an atomic call, recorded separately as the call
+            if not a.get("atomic"):
+                ok = False
+                break
+            via = a.get("via", "")
+            if any(via.endswith(x) or x + "::" in via for x in RMW):
+                rmw_fns.add(p)
+            elif via.endswith("::load"):
+                load_fns.add(p)
+            else:
+                ok = False          # a plain store (or anything else) could move the token backwards
+                break
+        if not ok or not rmw_fns or not load_fns:
+            continue
+        for p in load_fns:
+            b = cg.nodes.get(p)
+            if b is None:
+                ok = False
+                break
+            for path in Walker(b, max_visits=2).paths():
+                loads = [e for e in path.calls() if e["callee"].endswith("::load") and e["args"] and strip(e["args"][0]) == ("static", st)]
+                for ld in loads:
+                    r = ld["result"]
+                    for e in path.events:
+                        if e is ld:
+                            continue
+                        if e["k"] == "branch":
+                            c = e["cond"]
+                            if mentions(c, lambda t: t == r):
+                                good = c[0] == "binop" and c[1] in ("Eq", "Ne") and (strip(c[2]) == r or strip(c[3]) == r)
+                                other = strip(c[3]) if good and strip(c[2]) == r else (strip(c[2]) if good else None)
+                                if not good or mentions(other, lambda t: t[0] == "static"):
+                                    ok = False
+                        elif e["k"] == "call" and any(mentions(x, lambda t: t == r) for x in e["args"]):
+                            ok = False
+                        elif e["k"] == "write" and mentions(e["value"], lambda t: t == r):
+                            ok = False
+                    if path.end == "return" and path.ret is not None and mentions(path.ret, lambda t: t == r):
+                        ok = False
+            test_fns.add(p)
+        if ok:
+            out[st] = {"rmw": sorted(rmw_fns), "tests": sorted(test_fns)}
+    return out
